@@ -92,6 +92,8 @@ P = dict(
              flavours={"quick": ["plain-cc", "asan-cc"], "thorough": ["plain-cc", "asan-cc"]}, shards={"quick": 8, "thorough": 16}),
         Unit("C16_complex_double", "harness/C16_complex.cpp", defs=tdefs("double"),
              flavours={"quick": ["plain-cc", "asan-cc"], "thorough": ["plain-cc", "asan-cc"]}, shards={"quick": 8, "thorough": 16}),
+        Unit("C16_mixed", "harness/C16_mixed.cpp",
+             flavours={"quick": ["plain-cc", "asan-cc"], "thorough": ["plain-cc", "asan-cc", "O0-cc"]}, shards={"quick": 3, "thorough": 3}),
     ] + c13_fp_units(),
     floor={"quick": 500000000, "thorough": 50000000000},
     assumptions=["glibc 2.36 libm and libgcc/libstdc++ 12 are correct references (exact set: correctly rounded by IEEE 754 definition; approximate set: within a few ulp)",
